@@ -17,7 +17,9 @@ Violation reasons are kept apart by their first word:
     handle:     db[key] (live FeatureDB handle) differs from the model
     printed:    str(db[key]) is not the line the strategy keeps (dialect of the file)
     lookup:     a stored feature is not found by region(..., completely_within=True) / all_features(limit=) at its position
-Case kinds: "history" (with "built"/"modes": Feature objects whose coordinates are edited after construction, see feed),
+    shared:     a list object that the caller shares between features was changed by the import
+Case kinds: "keyless" (case["keyspec"]: key from a ':field:' / callable id_spec or auto-numbered; attribute-less colliding features),
+"shared" (case["share"]: features sharing value-list objects, see class Shared), "history" (with "built"/"modes": Feature objects whose coordinates are edited after construction, see feed),
 "locked" (update() under a transient lock held by another connection, see execute_locked), "badforce".
 """
 import os
@@ -30,6 +32,7 @@ from gvmon.monitors import contracts
 
 FORCE_NOTICE = r"(frame|strand) field will be merged for features with the same ID"
 WFILTERS = ("error", "ignore", "default")
+SHARE_MODES = ("transform", "objects", "iterator", "clone", "clone-dict")
 
 RULE = ("histories of 1-2 colliding keys with 2-6 arrivals each (plus unique features, parent features and arrivals whose "
         "own id is an earlier '<key>_n'), columns drawn as variants that are equal / differ in forced / differ in other "
@@ -55,6 +58,15 @@ RULE = ("histories of 1-2 colliding keys with 2-6 arrivals each (plus unique fea
         "one history (every strategy, half of them 'warning'; plain, multi-run and repeated-line histories) run three times, while "
         "the process-wide warning filter (warnings.simplefilter inside catch_warnings) is 'error', 'ignore' and 'default', "
         "each run judged against the model; "
+        "keys that do not come from an attribute - id_spec ':seqid:' / ':source:' / ':featuretype:' (str or list), a callable "
+        "id_spec joining columns, or auto-numbered '<featuretype>_<n>' ids of features without the id attribute that a later "
+        "literal id (ID=exon_1) hits and vice versa - with about half of the colliding arrivals (stored and/or newcomer) having no "
+        "attributes at all, every strategy, merge mostly with a non-empty force_merge_fields whose columns differ, create_db and "
+        "update(), GFF3 and GTF; features that SHARE value-list objects - a transform attaching one constant list object per key "
+        "(and one Parent list) to every feature of create_db and of every update, lists / iterators of Feature objects whose equal "
+        "value lists are one object, Feature objects made with copy.copy() from an earlier one with an own mapping (Attributes or "
+        "dict) holding the template's list objects -, every strategy, unique features appended after the collisions; the shared "
+        "list objects must hold afterwards what they held before; "
         "one update() per quick run (thorough: every strategy) made while another sqlite3 connection holds a write "
         "transaction for 6.5-7 s (> the 5 s busy timeout) and then releases it, no key colliding; every stored feature is also read through the live "
         "handle (db[key], str(), region(completely_within=True) and all_features(limit=) at its position); non-trivial = >= 3 arrivals on one key; "
@@ -137,6 +149,30 @@ REQUIRED = ["histories", "arrivals", "stored features compared", "attribute valu
             "warning filter 'error': strategy 'warning' over create_db + update()",
             "warning filter 'default': strategy 'warning' ignored a later arrival and the import went on",
             "warning filter 'ignore': strategy 'warning' ignored a later arrival and the import went on",
+            # keys that do not come from an attribute; colliding features without attributes
+            "merge into a stored feature without attributes, a forced column brings a new value: key from field",
+            "merge into a stored feature without attributes, a forced column brings a new value: key from callable",
+            "merge into a stored feature without attributes, a forced column brings a new value: key from autoid",
+            "merge into a stored feature without attributes, a forced column brings a new value (create_db)",
+            "merge into a stored feature without attributes, a forced column brings a new value (update())",
+            "merge into a stored feature without attributes, a forced column brings a new value: gff3",
+            "merge into a stored feature without attributes, a forced column brings a new value: gtf",
+            "merge of a newcomer without attributes, a forced column brings a new value",
+            "collisions with a stored feature without attributes: key from field",
+            "collisions with a stored feature without attributes: key from callable",
+            "collisions with a stored feature without attributes: key from autoid",
+            "features filed under an auto-numbered key",
+            # features that share value-list objects
+            "shared value-list objects compared after the import (contents unchanged)",
+            "features handed over that share value-list objects",
+            "update() calls with features that share value-list objects",
+            "histories whose features share one Parent list object",
+            "shared lists: a real merge followed by later features that collide with nothing",
+        ] + ["histories whose features share value-list objects (%s)" % m for m in SHARE_MODES] + [
+            "shared lists: a real merge followed by later features that collide with nothing (%s, %s)" % (m, w)
+            for m in SHARE_MODES for w in ("create_db", "create_db + update()")] + [
+            "histories whose features share value-list objects: strategy=%s" % st
+            for st in ("warning", "replace", "create_unique", "merge")] + [
             # transient lock
             "transient lock: update() calls made while another connection held a write transaction > 5 s",
             "transient-lock cases judged"]
@@ -156,7 +192,11 @@ REQUIRED_CLASSES = (["strategy=" + s for s in M.STRATEGIES] + ["fmt=gff3", "fmt=
                     + ["input class: value lists holding a value more than once, strategy=" + s for s in M.STRATEGIES]
                     + ["repeated lines: fmt=%s path=%s" % (f, p) for f in ("gff3", "gtf") for p in ("create", "create+update")]
                     + ["warning filter %r: strategy=%s" % (w, s) for w in WFILTERS for s in M.STRATEGIES]
-                    + ["warning filter 'error': fmt=%s path=%s" % (f, p) for f in ("gff3", "gtf") for p in ("create", "create+update")])
+                    + ["warning filter 'error': fmt=%s path=%s" % (f, p) for f in ("gff3", "gtf") for p in ("create", "create+update")]
+                    + ["key not from an attribute (%s): strategy=%s" % (f, s) for f in ("field", "callable", "autoid") for s in M.STRATEGIES]
+                    + ["key not from an attribute: fmt=%s path=%s" % (f, p) for f in ("gff3", "gtf") for p in ("create", "create+update")]
+                    + ["shared value lists (%s): strategy=merge" % m for m in SHARE_MODES]
+                    + ["shared value lists: fmt=%s path=%s" % (f, p) for f in ("gff3", "gtf") for p in ("create", "create+update")])
 ASSUMPTIONS = [
     "one strategy, one force_merge_fields set and one id_spec per history (create_db and every update alike)",
     "a history in which the fresh '<key>_n' is already the key of another feature, or in which two candidates agree with "
@@ -189,6 +229,14 @@ ASSUMPTIONS = [
     "the outcome of a strategy does not depend on the process-wide warning filter; the one warning the unchanged tree emits "
     "itself on these paths - the UserWarning announcing frame / strand in force_merge_fields under 'merge', before "
     "anything is imported - is left un-escalated under the filter 'error' (message-specific 'ignore' entry)",
+    "keys that do not come from an attribute: id_spec ':c:' gives the column c, a callable what it returns; a feature for which "
+    "id_spec finds nothing is filed under '<featuretype>_<n>', n counting such features of the type over create_db and all "
+    "updates (documented default of create_db); such a key collides like any other (a literal ID=exon_1 arriving after the "
+    "auto-numbered exon_1, or the auto-numbered one arriving after the literal); an empty attribute column is a feature "
+    "with no attributes; forced columns are compared as sets of comma-separated parts (order and multiplicity not judged)",
+    "features sharing value-list objects: the feature handed to the importer has the values its lists hold when it is handed "
+    "over (after the transform); a stored feature has its own values whoever else references the list objects, and the "
+    "caller's list objects hold afterwards what they held before (reason 'shared')",
     "transient lock: update() may raise sqlite3.OperationalError (then only a retry of the same update on a fresh handle, "
     "after the release, is judged) or return normally; either way the content must be the model's. Only update() is "
     "exercised (create_db makes its own file)",
@@ -242,6 +290,11 @@ def report(ctx, case, reason, msg, **detail):
     ctx.mon("violations: " + reason)
     d = {"why": "%s: %s" % (reason, msg), "strategy": case["strategy"], "force": case["force"], "importer": case["fmt"]}
     d.update(detail)
+    if case.get("keyspec"):
+        d["id_spec"] = case["keyspec"]
+    if case.get("share"):
+        d["features share value-list objects"] = case["share"]
+    case = dict((k, v) for k, v in case.items() if k != "_shared")
     d["input"] = [text_of(b, case["fmt"]) for b in case["batches"]]
     if case.get("built"):
         d["features constructed at [start, end] and then edited to the input's (null: not edited)"] = case["built"]
@@ -266,7 +319,13 @@ def real_kwargs(case, bi=0):
     kw = {"merge_strategy": case["strategy"]}
     if case["strategy"] == "merge" or case.get("pass_force_anyway"):
         kw["force_merge_fields"] = list(case["force"])
-    if case["spec_form"] == "str":
+    if case["spec_form"] in ("field", "field-list"):
+        spec = ":%s:" % case["keyspec"]["field"]
+        kw["id_spec"] = spec if case["spec_form"] == "field" else [spec]
+    elif case["spec_form"] == "callable":
+        cols = list(case["keyspec"]["cols"])
+        kw["id_spec"] = lambda f: ":".join(str(getattr(f, c)) for c in cols)
+    elif case["spec_form"] == "str":
         kw["id_spec"] = case["idkey"]
     elif case["spec_form"] == "list":
         kw["id_spec"] = [case["idkey"]]
@@ -287,6 +346,8 @@ def feed(case, bi, b):
     """What is handed to create_db / update for batch bi -> (data, keyword arguments).  With "built": the Feature objects
     are constructed at other coordinates and edited to the record's afterwards, by a transform or by the caller."""
     fmt = case["fmt"]
+    if case.get("share"):
+        return case["_shared"].feed(bi, b)
     bl = case["built"][bi] if case.get("built") else None
     if not bl or not any(bl):
         return text_of(b, fmt), {"from_string": True}
@@ -314,6 +375,98 @@ def feed(case, bi, b):
                 f.end = int(r["end"])
         feats.append(f)
     return feats, {}
+
+
+class Shared(object):
+    """Inputs whose features share value-list objects (case["share"], see gen_shared).  Every list object handed to the
+    importer that is referenced by more than one feature / by the caller is registered with a copy of its contents;
+    changed() lists those whose contents differ afterwards."""
+
+    def __init__(self, case):
+        self.case = case
+        self.sh = case["share"]
+        self.reg = []          # (description, list object, copy of its contents)
+        self.nfeat = 0
+        self.data = None
+        mode = self.sh["mode"]
+        if mode == "transform":
+            self.consts = [(k, list(v)) for k, v in self.sh["const"]]
+            for k, lst in self.consts:
+                self.reg.append(("the list the transform attaches as %r to every feature" % k, lst, list(lst)))
+            self.parent = list(self.sh["parent"]) if self.sh.get("parent") else None
+            if self.parent is not None:
+                self.reg.append(("the list the transform attaches as 'Parent' to every feature that is not an mRNA", self.parent,
+                                 list(self.parent)))
+        else:
+            self.data = self.build()
+
+    def build(self):
+        import copy
+
+        from gffutils.feature import feature_from_line
+
+        case, mode = self.case, self.sh["mode"]
+        D = point(case["fmt"])
+        pool = {}
+        out = []
+        users = {}
+        for b in case["batches"]:
+            feats = []
+            for r in b:
+                g = feature_from_line(MD.render_line(r, D))
+                if mode in ("objects", "iterator") or not feats:
+                    f = g
+                    for k, vals in r["attrs"]:
+                        lst = pool.setdefault((k, tuple(vals)), list(vals))
+                        f.attributes[k] = lst
+                        users[id(lst)] = users.get(id(lst), 0) + 1
+                else:
+                    # a clone of the earlier feature of this run that has most value lists in common
+                    want = dict((k, list(v)) for k, v in r["attrs"])
+                    score = lambda t: sum(1 for k in want if k in t.attributes.keys() and t.attributes[k] == want[k])
+                    tpl = max(feats, key=score)
+                    f = copy.copy(tpl)
+                    for c in M.COLS + ("extra",):
+                        setattr(f, c, getattr(g, c))
+                    amap = {} if mode == "clone-dict" else type(g.attributes)()
+                    for k, vals in r["attrs"]:
+                        if k in tpl.attributes.keys() and tpl.attributes[k] == list(vals):
+                            lst = tpl.attributes[k]
+                        else:
+                            lst = list(vals)
+                        amap[k] = lst
+                        pool.setdefault((id(lst),), lst)
+                        users[id(lst)] = users.get(id(lst), 0) + 1
+                    f.attributes = amap
+                feats.append(f)
+                self.nfeat += 1
+            out.append(feats)
+        for key, lst in pool.items():
+            if users.get(id(lst), 0) >= 2:
+                self.reg.append(("a value list %r held by %d features of the input" % (lst, users[id(lst)]), lst, list(lst)))
+        return out
+
+    def feed(self, bi, b):
+        case = self.case
+        if self.sh["mode"] == "transform":
+            strip = set(k for k, _ in self.consts)
+            shown = [dict(r, attrs=[a for a in r["attrs"] if a[0] not in strip]) for r in b]
+            consts, parent = self.consts, self.parent
+
+            def transform(f):
+                if parent is not None and f.featuretype != "mRNA":
+                    f.attributes["Parent"] = parent
+                for k, lst in consts:
+                    f.attributes[k] = lst
+                return f
+
+            self.nfeat += len(b)
+            return text_of(shown, case["fmt"]), {"from_string": True, "transform": transform}
+        feats = self.data[bi]
+        return (iter(feats) if self.sh["mode"] == "iterator" else feats), {}
+
+    def changed(self):
+        return [(what, now, was) for what, now, was in self.reg if list(now) != was]
 
 
 def execute(ctx, case):
@@ -355,10 +508,13 @@ def execute_plain(ctx, case):
     batches = case["batches"]
     tk, gk = link_keys(case)
     store, outcome = M.run(strategy, case["force"], batches, case["idkey"],
-                           link_keys=[("level-1", tk)] + ([("level-2", gk)] if gk else []))
+                           link_keys=[("level-1", tk)] + ([("level-2", gk)] if gk else []), keyspec=case.get("keyspec"))
     if outcome[0] == "silent":
         ctx.skip("statement silent: " + outcome[1].split("'")[0].strip())
         return None
+    if case.get("share"):
+        case = dict(case)
+        case["_shared"] = Shared(case)          # not part of the stored case: rebuilt from case["share"] on replay
     dbfn = ctx.tmp(".db") if case["db"] == "file" else ":memory:"
     db = None
     try:
@@ -377,9 +533,12 @@ def execute_plain(ctx, case):
                         ctx.mon("database reopened before update()")
                     db.update(data, make_backup=False, **kw)
                     ctx.mon("update() calls")
-                    if "transform" in kw:
+                    if case.get("share"):
+                        ctx.mon("update() calls with features that share value-list objects (%s)" % case["share"]["mode"])
+                        ctx.mon("update() calls with features that share value-list objects")
+                    elif "transform" in kw:
                         ctx.mon("update() calls with a transform that edits coordinates")
-                    if isinstance(data, list):
+                    elif isinstance(data, list):
                         ctx.mon("update() calls with a list of Feature objects edited by the caller")
                     if "transcript_key" in kw:
                         ctx.mon("update() calls with transcript_key / gene_key")
@@ -405,6 +564,8 @@ def execute_plain(ctx, case):
         if "verbose" in case:
             ctx.mon("histories run with verbose=%r" % (case["verbose"],))
         compare(ctx, case, db, store)
+        if case.get("share"):
+            shared_unchanged(ctx, case, store)
         observed(ctx, case, store)
     finally:
         try:
@@ -415,8 +576,20 @@ def execute_plain(ctx, case):
         if dbfn != ":memory:" and os.path.exists(dbfn):
             os.unlink(dbfn)
     for v in contracts.drain():
-        ctx.violation(case, v)
+        ctx.violation(dict((k, x) for k, x in case.items() if k != "_shared"), v)
     return store
+
+
+def shared_unchanged(ctx, case, store):
+    """The list objects the caller shares between the features hold what they held before the import."""
+    sh = case["_shared"]
+    ctx.mon("shared value-list objects compared after the import (contents unchanged)", len(sh.reg))
+    ctx.mon("features handed over that share value-list objects", sh.nfeat)
+    bad = sh.changed()
+    if bad:
+        what, now, was = bad[0]
+        report(ctx, case, "shared", "the import changed a list object of the caller: %s" % what, before=was, after=list(now),
+               shared=case["share"], arrivals=store.log, changed=len(bad))
 
 
 def noncanonical(case):
@@ -434,6 +607,30 @@ def observed(ctx, case, store):
         ctx.mon("histories with force_merge_fields in non-canonical order (%s)" % case["fmt"])
     if case.get("gtfkeys"):
         ctx.mon("GTF histories under non-default transcript/gene keys")
+    nb = len(case["batches"])
+    if case.get("keyspec"):
+        form = case["keyspec"]["form"]
+        ctx.mon("histories whose keys do not come from an attribute (%s)" % form)
+        n = store.stats.get("merge into a stored feature without attributes, a forced column brings a new value", 0)
+        if n:
+            ctx.mon("merge into a stored feature without attributes, a forced column brings a new value: key from %s" % form, n)
+            ctx.mon("merge into a stored feature without attributes, a forced column brings a new value: %s" % case["fmt"], n)
+        for st in M.STRATEGIES:
+            n = store.stats.get("%s: the stored feature of a collision has no attributes at all" % st, 0)
+            if n:
+                ctx.mon("collisions with a stored feature without attributes: key from %s" % form, n)
+    if case.get("share"):
+        mode = case["share"]["mode"]
+        ctx.mon("histories whose features share value-list objects (%s)" % mode)
+        ctx.mon("histories whose features share value-list objects: strategy=%s" % case["strategy"])
+        if case["share"].get("parent"):
+            ctx.mon("histories whose features share one Parent list object")
+        words = store.log
+        merged = [i for i, w in enumerate(words) if w.startswith("merged")]
+        if merged and any(w == "new" for w in words[merged[0] + 1:]):
+            ctx.mon("shared lists: a real merge followed by later features that collide with nothing")
+            ctx.mon("shared lists: a real merge followed by later features that collide with nothing (%s, %s)" % (
+                mode, "create_db" if nb == 1 else "create_db + update()"))
     if case.get("built"):
         ctx.mon("histories with features edited after construction")
         recs = [r for b in case["batches"] for r in b]
@@ -709,7 +906,7 @@ def live(ctx, case, db, key, e, row, stored, moved):
 
 
 def store_log(case):
-    return M.run(case["strategy"], case["force"], case["batches"], case["idkey"])[0].log
+    return M.run(case["strategy"], case["force"], case["batches"], case["idkey"], keyspec=case.get("keyspec"))[0].log
 
 
 def execute_badforce(ctx, case):
@@ -886,6 +1083,12 @@ def account(ctx, case, store):
         ctx.classes["warning filter %r: fmt=%s path=%s" % (case["wfilter"], case["fmt"], "create" if nb == 1 else "create+update")] += 1
     if case["kind"] == "locked":
         ctx.classes["transient lock during update(): strategy=" + case["strategy"]] += 1
+    if case.get("keyspec"):
+        ctx.classes["key not from an attribute (%s): strategy=%s" % (case["keyspec"]["form"], case["strategy"])] += 1
+        ctx.classes["key not from an attribute: fmt=%s path=%s" % (case["fmt"], "create" if nb == 1 else "create+update")] += 1
+    if case.get("share"):
+        ctx.classes["shared value lists (%s): strategy=%s" % (case["share"]["mode"], case["strategy"])] += 1
+        ctx.classes["shared value lists: fmt=%s path=%s" % (case["fmt"], "create" if nb == 1 else "create+update")] += 1
     for m in set(case.get("modes") or ()):
         ctx.classes["coordinates edited after construction (%s): strategy=%s" % (m, case["strategy"])] += 1
     runs = store.collision_runs()
@@ -903,8 +1106,10 @@ def account(ctx, case, store):
               case.get("pattern"), case.get("gtfkeys"), case.get("opts"), len(runs), repr(case.get("verbose")),
               case.get("modes"), [[bool(p) for p in bl] for bl in case.get("built") or []], case["kind"],
               str(case.get("repeats")), [len(b) for b in case["batches"]] if case.get("repeats") else None,
-              case.get("wfilter")),
-             many or case["kind"] == "locked" or bool(case.get("repeats")),
+              case.get("wfilter"), str(case.get("keyspec")), case["spec_form"],
+              str(sorted((case.get("share") or {}).items()))),
+             many or case["kind"] == "locked" or bool(case.get("repeats")) or any(w.startswith("merged") for w in store.log)
+             and case["kind"] in ("keyless", "shared"),
              sample={"strategy": case["strategy"], "force": case["force"], "fmt": case["fmt"], "arrivals": store.log,
                      "verbose": case.get("verbose", "not given"),
                      "input": [text_of(b, case["fmt"]) for b in case["batches"]][:2]})
@@ -1041,6 +1246,24 @@ def run(ctx):
             done += st is not None
         if done == 3:
             ctx.mon("one history run under the warning filters 'error' / 'ignore' / 'default' (each judged against the model)")
+    # 2j. keys that do not come from an attribute (':field:' / callable id_spec, auto-numbered ids hit by a literal id); about
+    #     half of the colliding arrivals have no attributes at all; merge with force_merge_fields in 2 of 3 cases
+    for i in range(ctx.budget(360, 12000)):
+        strategy = "merge" if i % 3 else rng.choice(M.STRATEGIES)
+        force = rng.choice([f for f in M.subsets() if f]) if strategy == "merge" and rng.random() < 0.85 else []
+        fmt = rng.choice(["gff3", "gff3", "gtf"])
+        case = G.gen_keyless(rng, fmt, strategy, force, rng.choice(["create", "update"]),
+                             ("field", "callable", "autoid")[(i // 3) % 3 if strategy != "merge" else rng.randrange(3)],
+                             opts=draw_opts(rng, fmt))
+        account(ctx, case, execute(ctx, case))
+    # 2k. features that share value-list objects (a transform attaching constant lists, interned / cloned Feature objects)
+    for i in range(ctx.budget(360, 12000)):
+        strategy = "merge" if i % 2 else rng.choice(M.STRATEGIES)
+        force = rng.choice(M.subsets()) if strategy == "merge" and rng.random() < 0.4 else []
+        fmt = rng.choice(["gff3", "gff3", "gtf"])
+        mode = ("transform", "objects", "clone", "transform", "iterator", "clone-dict")[(i // 2) % 6]
+        case = G.gen_shared(rng, fmt, strategy, force, mode, opts=draw_opts(rng, fmt))
+        account(ctx, case, execute(ctx, case))
     # 2g. a transient lock held by another connection while update() inserts; nothing collides.  Quick: one case on the
     #     last shard; thorough: every strategy, one per shard
     if ctx.tier == "quick":
@@ -1077,7 +1300,11 @@ MANIFEST = {
             "update() in which nothing collides runs while another connection holds a write transaction beyond the busy "
             "timeout: it must fail with sqlite3.OperationalError (a retry then gives the model's content) or store every "
             "newcomer under its own key. Stored lines also arrive again verbatim or in another key / value order, with value "
-            "lists that hold a value more than once: under merge the feature must end up with every value once.",
+            "lists that hold a value more than once: under merge the feature must end up with every value once. Keys also come "
+            "from ':field:' / callable id_specs and auto-numbered ids, with colliding features that have no attributes at all "
+            "(forced columns must be the set of values of all merged lines); and inputs whose features share value-list objects "
+            "(constant-attaching transform, interned / copy.copy()-cloned Feature objects) must be stored each with its own values, "
+            "no invented relation rows, the caller's list objects unchanged.",
     "note": "Trusted: gvmon/models/C05.py and the reference renderer. The relation part is reported under its own reason "
             "('relations: ...') so that it can be told apart from feature/attribute mismatches.",
 }
